@@ -227,13 +227,6 @@ func (spm *spotMgr) detectSignals(ctx context.Context, a *actor, line string) {
 
 		elapsed := ts.Sub(epoch).Seconds()
 
-		ev, ok := evs[elapsed]
-		if !ok {
-			ev = &sigEvent{ts: elapsed}
-			evs[elapsed] = ev
-			tss = append(tss, elapsed)
-		}
-
 		// Parse the data.
 		switch rp.typ {
 		case sigTypEvent:
@@ -257,6 +250,16 @@ func (spm *spotMgr) detectSignals(ctx context.Context, a *actor, line string) {
 			sink.lastVal = curVal
 		}
 
+		// Only now is the point known to be valid: register the event
+		// for its time stamp. (Registered before the value was parsed, a
+		// dropped line sent an event without values to the audience: an
+		// audit round at that line's time stamp.)
+		ev, ok := evs[elapsed]
+		if !ok {
+			ev = &sigEvent{ts: elapsed}
+			evs[elapsed] = ev
+			tss = append(tss, elapsed)
+		}
 		spm.r.witness(ctx, "(%s's %s:) %v", a.name, rp.name, valHolder.val)
 		ev.values = append(ev.values, valHolder)
 	}
